@@ -166,11 +166,19 @@ def run_one(case):
             elif t == 'oasync':
                 flog[name] = []
 
-                async def coro(value, _name=name):
-                    await asyncio.sleep(2 * MS)
-                    flog[_name].append(value)
-                blk = edzed.OutputAsync(name, coro=coro, mode=bd['mode'], stop_data={'value': 'STOP'},
-                                        on_error=None, stop_timeout=50 * MS)
+                if bd.get('empty_stop'):
+                    # a coroutine without arguments: stop_data is the EMPTY mapping (still not None)
+                    async def coro0(_name=name):
+                        await asyncio.sleep(2 * MS)
+                        flog[_name].append('STOP')
+                    blk = edzed.OutputAsync(name, coro=coro0, mode=bd['mode'], f_args=(), stop_data={},
+                                            on_error=None, stop_timeout=50 * MS)
+                else:
+                    async def coro(value, _name=name):
+                        await asyncio.sleep(2 * MS)
+                        flog[_name].append(value)
+                    blk = edzed.OutputAsync(name, coro=coro, mode=bd['mode'], stop_data={'value': 'STOP'},
+                                            on_error=None, stop_timeout=50 * MS)
             elif t == 'ofunc':
                 flog[name] = []
 
@@ -462,6 +470,8 @@ def gen_case(rng):
                 bd['stop_timeout_ms'] = 5
         if t == 'oasync':
             bd['mode'] = rng.choice(['wait', 'cancel', 'start'])
+            if rng.random() < 0.3:
+                bd['empty_stop'] = True
         if t == 'fsm' and rng.random() < 0.5:
             bd['chain'] = True
         blocks.append(bd)
@@ -535,6 +545,9 @@ DIRECTED = [
         dict(t='mtask')], None, 'running', fault_ms=4),
     _d([dict(t='probe'), dict(t='probe', fault='handler_sim'), dict(t='func'), dict(t='oasync', mode='wait'),
         dict(t='repeat')], 'support_return', 'running', wait_init=True, fault_ms=6),
+    # stop_data = {} (empty, but not None) for coroutines without arguments
+    _d([dict(t='probe'), dict(t='oasync', mode='wait', empty_stop=True), dict(t='oasync', mode='cancel', empty_stop=True),
+        dict(t='oasync', mode='start', empty_stop=True)], 'shutdown', 'running', fault_ms=6),
     # a timed FSM state entered by the expiry of another FSM timer, ended while that timer runs
     _d([dict(t='probe'), dict(t='fsm', chain=True), dict(t='ofunc')], 'shutdown', 'running', fault_ms=6),
     _d([dict(t='probe'), dict(t='fsm', chain=True), dict(_AP, stop_ms=3)], 'abort', 'running', fault_ms=8),
